@@ -582,6 +582,22 @@ def str_method(interp, st, recv, name, args, kwargs):
     elif name == 'encode' and k == STR:
         f = interp.uf('encode_utf8', STR, BYTES)
         yield st, SV(BYTES, f(z))
+    elif name == 'split' and len(args) == 2 and args[1] == 1 and isinstance(args[0], (str, bytes)) and len(args[0]) == 1:
+        # s.split(sep, 1): cut at the FIRST separator (unique decomposition), or the whole string when there is none
+        zsep = lift(args[0], k).z
+        for s1, has in interp.branch(st, z3.Contains(z, zsep)):
+            if has:
+                head, tail = sym.fresh(k, 'split_head'), sym.fresh(k, 'split_tail')
+                s1.assume(z == z3.Concat(head.z, zsep, tail.z))
+                s1.assume(z3.Not(z3.Contains(head.z, zsep)))
+                yield s1, s1.new_py('list', [head, tail])
+            else:
+                yield s1, s1.new_py('list', [recv if isinstance(recv, SV) else lift(recv, k)])
+    elif name == 'isidentifier' and not args:
+        if isinstance(recv, str):
+            yield st, recv.isidentifier()
+        else:
+            yield st, SV(BOOL, interp.uf('isidentifier', k, BOOL)(z))
     elif name in ('rstrip', 'lstrip', 'strip') and len(args) <= 1:
         # the result is what is left after removing characters of the set from the end(s): a factor of the receiver,
         # equal to it when nothing can be removed (an uninterpreted function with those two laws)
